@@ -491,12 +491,10 @@ fn lens_for(n: usize) -> Vec<usize> {
     }
 }
 
-pub fn check_c06(ctx: &mut Ctx, cfg: &Cfg, how: How) {
-    let _case = crate::watchdog::case_cfg("c06", cfg, how);
-    ctx.eval();
-    let kind = cfg.kind_name();
-    let case = || cfg_case("c06", cfg, how);
-    with_writer(cfg, how, |w| {
+/// The size relation of C06 for one writer: `calculate_size()` against `write_into()` over buffer lengths.
+fn size_relation(ctx: &mut Ctx, kind: &str, padded: &str, whole_packet: bool, fp: u64, mkcase: &dyn Fn() -> J, shape: &dyn Fn() -> J, w: &crate::drive::DynW) {
+    let case = || mkcase();
+    {
         let r = calc(w);
         match &r {
             WOut::WrongSize { .. } => unreachable!("calc never reports WrongSize"),
@@ -505,8 +503,8 @@ pub fn check_c06(ctx: &mut Ctx, cfg: &Cfg, how: How) {
             }
             WOut::Ok(n) => {
                 let n = *n;
-                ctx.class_dyn(format!("c06:{kind}:ok:{}", pk(cfg)));
-                if n % 4 != 0 {
+                ctx.class_dyn(format!("c06:{kind}:ok:{padded}"));
+                if whole_packet && n % 4 != 0 {
                     ctx.violate("size-multiple-of-4", kind, "n%4", case, "n % 4 == 0", format!("calculate_size() == {n}"));
                 }
                 if n > (1 << 22) {
@@ -531,15 +529,15 @@ pub fn check_c06(ctx: &mut Ctx, cfg: &Cfg, how: How) {
                             if l >= n { "write-large-enough" } else { "write-too-small" },
                             kind,
                             &feature,
-                            || cfg_case("c06", cfg, how).set("buffer_len", l),
+                            || mkcase().set("buffer_len", l),
                             if l >= n { format!("calculate_size()==Ok({n}); write_into(buf[..{l}]) == Ok({n})") } else { format!("write_into(buf[..{l}]) == Err(OutputTooSmall({n}))") },
                             format!("write_into(buf[..{l}]) gives {}", got.render()),
                         );
                         break;
                     }
                 }
-                ctx.nontrivial(hash_of(cfg));
-                ctx.sample_sparse(30_011, || J::obj().set("cfg", cfg.shape()).set("n", n));
+                ctx.nontrivial(fp);
+                ctx.sample_sparse(30_011, || J::obj().set("cfg", shape()).set("n", n));
             }
             WOut::Err(e) => {
                 ctx.class_dyn(format!("c06:{kind}:err:{}", variant_name(&format!("{e:?}"))));
@@ -551,17 +549,49 @@ pub fn check_c06(ctx: &mut Ctx, cfg: &Cfg, how: How) {
                             "same-error",
                             kind,
                             &got.class(),
-                            || cfg_case("c06", cfg, how).set("buffer_len", l),
+                            || mkcase().set("buffer_len", l),
                             format!("calculate_size() fails with {e:?}; write_into fails with the same error"),
                             format!("write_into(buf[..{l}]) gives {}", got.render()),
                         );
                         break;
                     }
                 }
-                ctx.nontrivial(hash_of(cfg));
+                ctx.nontrivial(fp);
             }
         }
-    });
+    }
+}
+
+/// An FCI builder driven as what it also is: a writer of its own (`FciBuilder: RtcpPacketWriter`).
+#[derive(Debug)]
+struct FciAlone<'a>(&'a dyn rtcp_types::FciBuilder<'a>);
+impl<'a> rtcp_types::prelude::RtcpPacketWriter for FciAlone<'a> {
+    fn calculate_size(&self) -> Result<usize, RtcpWriteError> {
+        self.0.calculate_size()
+    }
+    fn write_into_unchecked(&self, buf: &mut [u8]) -> usize {
+        self.0.write_into_unchecked(buf)
+    }
+    fn get_padding(&self) -> Option<u8> {
+        self.0.get_padding()
+    }
+}
+
+pub fn check_c06(ctx: &mut Ctx, cfg: &Cfg, how: How) {
+    let _case = crate::watchdog::case_cfg("c06", cfg, how);
+    ctx.eval();
+    let kind = cfg.kind_name();
+    with_writer(cfg, how, |w| size_relation(ctx, kind, pk(cfg), true, hash_of(cfg), &|| cfg_case("c06", cfg, how), &|| J::Str(cfg.shape()), w));
+    // the FCI builder of a feedback configuration is a writer of its own as well (`FciBuilder: RtcpPacketWriter`):
+    // the control information alone, no header, any length its entries make
+    if let Cfg::Fb { fci, .. } = cfg {
+        let made = call(|| crate::drive::mk_fci(fci));
+        if let Ok(fb) = made {
+            let alone = FciAlone(fb.as_dyn());
+            let k = format!("{}(fci-builder-alone)", kind);
+            size_relation(ctx, &k, "fci", false, hash_of(cfg) ^ 0xfc1, &|| cfg_case("c06", cfg, how).set("subject", "the FCI builder on its own"), &|| J::Str(cfg.shape()), &crate::drive::DynW(&alone));
+        }
+    }
     // SDES chunk and item builders have their own write_into
     if let Cfg::Sdes { chunks, .. } = cfg {
         for (ci, c) in chunks.iter().enumerate().take(4) {
